@@ -165,6 +165,7 @@ struct PostWin {
 /// Flags and counters the property modules turn into evidence classes / the non-trivial rule.
 #[derive(Default, Debug, Clone)]
 pub struct Facts {
+    pub long_dispatch_with_synthetic: u32,
     pub sources_returned_err: u32,
     pub tasks_scheduled: u32,
     pub tasks_scheduled_in_cb: u32,
@@ -243,6 +244,8 @@ pub struct Monitor {
     /// upper bound on timer-wheel entries left behind by composites whose insertion failed half-way
     ghost_timers: usize,
     disp_reg_failed: bool,
+    disp_timeout_ms: u32,
+    disp_synth_promised: bool,
     tasks: Vec<MTask>,
     asyncs: Vec<MAsync>,
     pending_adapt: Option<(Option<usize>, bool)>,
@@ -314,6 +317,8 @@ impl Monitor {
         Monitor {
             ghost_timers: 0,
             disp_reg_failed: false,
+            disp_timeout_ms: 0,
+            disp_synth_promised: false,
             tasks: vec![],
             asyncs: vec![],
             pending_adapt: None,
@@ -1553,7 +1558,9 @@ impl Monitor {
                 }
                 None
             }
-            Ev::DispBegin { t_ns, .. } => {
+            Ev::DispBegin { t_ns, timeout_ms } => {
+                self.disp_timeout_ms = *timeout_ms;
+                self.disp_synth_promised = false;
                 self.in_disp = true;
                 self.disp_no += 1;
                 self.disp_t0 = *t_ns;
@@ -1615,6 +1622,7 @@ impl Monitor {
                     self.disp_err_cause = true;
                 } else if ret.is_some() {
                     self.srcs[s].synth_owed = true;
+                    self.disp_synth_promised = true;
                 }
                 None
             }
@@ -2087,6 +2095,18 @@ impl Monitor {
                         for d in self.idles.iter_mut() {
                             if d.not_before <= self.disp_no {
                                 d.taken = true;
+                            }
+                        }
+                        // a synthetic event forces a non-blocking wait: a long-timeout dispatch must not have slept
+                        if self.disp_synth_promised && self.disp_timeout_ms >= 150 && !self.disp_hooks_failed {
+                            let waited_ms = (*t_ns - self.disp_t0) / 1_000_000;
+                            self.facts.long_dispatch_with_synthetic += 1;
+                            if waited_ms >= 100 {
+                                return viol(
+                                    "C14.synthetic",
+                                    &["C14", "C12"],
+                                    format!("a before_sleep hook returned a synthetic event, but the dispatch (timeout {} ms) took {waited_ms} ms: the wait was not made non-blocking", self.disp_timeout_ms),
+                                );
                             }
                         }
                         // synthetic events promised by before_sleep must have been delivered
